@@ -25,7 +25,7 @@ def tla_seq(x):
 
 
 def exec_mc(name, scripts, maxc, mins, tolc, tolp, invs, props=(), spec="Spec", fixes=None, tfail=False, reset_first=True,
-            atomic_cb=None, pre=(), ancestor_walk=None, resubmit_under_lock=None):
+            atomic_cb=None, pre=(), ancestor_walk=None, resubmit_under_lock=None, step_guard=None):
     fixes = fixes or (VARIANT.get("FixOrphanParent", False), VARIANT.get("FixBteBranch", False), VARIANT.get("FixEmpty", False))
     wd = work_dir(name)
     mod = f"MC_{name}"
@@ -42,7 +42,8 @@ def exec_mc(name, scripts, maxc, mins, tolc, tolp, invs, props=(), spec="Spec", 
            f"  FixEmpty = {'TRUE' if fixes[2] else 'FALSE'}", f"  ResetFirst = {'TRUE' if reset_first else 'FALSE'}",
            f"  AtomicCallback = {'TRUE' if (VARIANT.get('AtomicCallback', False) if atomic_cb is None else atomic_cb) else 'FALSE'}",
            f"  FixAncestorWalk = {'TRUE' if (VARIANT.get('FixAncestorWalk', False) if ancestor_walk is None else ancestor_walk) else 'FALSE'}",
-           f"  ResubmitUnderLock = {'TRUE' if (VARIANT.get('ResubmitUnderLock', True) if resubmit_under_lock is None else resubmit_under_lock) else 'FALSE'}"]
+           f"  ResubmitUnderLock = {'TRUE' if (VARIANT.get('ResubmitUnderLock', True) if resubmit_under_lock is None else resubmit_under_lock) else 'FALSE'}",
+           f"  FixStepGuard = {'TRUE' if (VARIANT.get('FixStepGuard', False) if step_guard is None else step_guard) else 'FALSE'}"]
     cfg += [f"INVARIANT {i}" for i in invs] + [f"PROPERTY {p}" for p in props] + ["CHECK_DEADLOCK FALSE"]
     with open(os.path.join(wd, mod + ".cfg"), "w") as f:
         f.write("\n".join(cfg) + "\n")
